@@ -41,6 +41,7 @@ static J case_json(const std::string& type, const VerCfg& vc, const Script& s) {
 
 // ---------- C05 ----------
 static bool g_carried = true; // C05: also check carried-over instances (--carried 0 switches it off)
+static int g_carried_dev = 0;  // ... for first reads with at most this many deviations (quick 0, thorough 1)
 static void oracle_c05(const std::string& type, const VerCfg& vc, const Script& s, Stats& st, Tape& tape, NiObject* obj, NiHeader& hdr) {
 	std::set<NiRef*> refs;
 	obj->GetChildRefs(refs);
@@ -117,7 +118,7 @@ static void oracle_c05(const std::string& type, const VerCfg& vc, const Script& 
 // (what a model converted or assembled across versions holds: the member groups of both versions populated at
 // once, a state no single file produces).  Under both versions every NiRef / NiStringRef object that Put passes
 // through Sync must be reported by the enumerators.
-static void c05_write_side(const std::string& type, const char* a_name, const char* b_name, const char* under, NiObject* obj, NiHeader& hdr, Stats& st) {
+static void c05_write_side(const std::string& type, const char* a_name, const char* b_name, const char* under, NiObject* obj, NiHeader& hdr, Stats& st, const Script& sa) {
 	std::set<NiRef*> refs;
 	obj->GetChildRefs(refs);
 	obj->GetPtrs(refs);
@@ -149,19 +150,20 @@ static void c05_write_side(const std::string& type, const char* a_name, const ch
 		st.violation(key,
 					 vf::strf("%s read under %s and then under %s: %s object #%zu written by Put under %s is not reported by the block's enumerators", type.c_str(), a_name,
 							  b_name, isref ? "NiRef" : "NiStringRef", ord, under),
-					 J::obj().set("type", type).set("carried_from", a_name).set("carried_to", b_name).set("put_under", under));
+					 J::obj().set("type", type).set("carried_from", a_name).set("carried_to", b_name).set("put_under", under).set("wide", g_wide).set("script", script_json(sa)));
 	};
 	for (size_t i = 0; i < seen_refs.size(); i++) if (!refptrs.count(seen_refs[i])) { report(true, i); break; }
 	for (size_t i = 0; i < seen_strs.size(); i++) if (!strptrs.count(seen_strs[i])) { report(false, i); break; }
 	g_unit_outcomes.insert(vf::fnv(vf::strf("carried/%zu/%zu/%zu/%zu", refs.size(), srefs.size(), seen_refs.size(), seen_strs.size())));
 }
 
-static void c05_carried(const std::string& type, const VerCfg& va, Stats& st) {
+// `sa` = the deviations of the first read (under A); the second read (under B) takes the default answers
+static void c05_carried(const std::string& type, const VerCfg& va, const Script& sa, Stats& st) {
 	static const Script none;
 	for (auto& vb : all_versions()) {
 		if (&vb == &va || std::string(vb.name) == va.name) continue;
 		if (vf::deadline_passed()) return;
-		vf::set_inflight(J::obj().set("type", type).set("carried_from", va.name).set("carried_to", vb.name).dump());
+		vf::set_inflight(J::obj().set("type", type).set("carried_from", va.name).set("carried_to", vb.name).set("wide", g_wide).set("script", script_json(sa)).dump());
 		NiHeader ha, hb;
 		ha.SetVersion(va.ver());
 		seed_strings(ha);
@@ -170,7 +172,7 @@ static void c05_carried(const std::string& type, const VerCfg& va, Stats& st) {
 		std::unique_ptr<NiObject> obj;
 		try {
 			Tape ta;
-			ta.script = &none;
+			ta.script = &sa;
 			ta.wide = g_wide;
 			ta.tag_refs = true; // non-empty references: empty ones are dropped from arrays on write
 			obj = load_block(type, ha, ta);
@@ -195,8 +197,8 @@ static void c05_carried(const std::string& type, const VerCfg& va, Stats& st) {
 			continue;
 		}
 		st.add("carried_instances");
-		c05_write_side(type, va.name, vb.name, vb.name, obj.get(), hb, st);
-		c05_write_side(type, va.name, vb.name, va.name, obj.get(), ha, st);
+		c05_write_side(type, va.name, vb.name, vb.name, obj.get(), hb, st, sa);
+		c05_write_side(type, va.name, vb.name, va.name, obj.get(), ha, st, sa);
 	}
 }
 
@@ -979,7 +981,7 @@ static std::vector<Point> run_one(const std::string& type, const VerCfg& vc, con
 		st.sample(case_json(type, vc, s).set("tape_bytes", (long long) tape.bytes.size()).set("tape_head", vf::hexbytes(tape.bytes, 24)));
 	if (A.prop == "C05") {
 		oracle_c05(type, vc, s, st, tape, obj.get(), hdr);
-		if (s.empty() && g_carried) c05_carried(type, vc, st);
+		if ((int) s.size() <= g_carried_dev && g_carried) c05_carried(type, vc, s, st);
 	}
 	else if (A.prop == "C01") {
 		oracle_c01_block(type, vc, s, st, tape, obj.get(), hdr);
@@ -1105,6 +1107,7 @@ int main(int argc, char** argv) {
 	g_file_level = (int) A.geti("filelevel", thorough ? 2 : 1);
 	g_file_dev = (int) A.geti("filedev", 1);
 	g_carried = A.geti("carried", 1) != 0;
+	g_carried_dev = (int) A.geti("carrieddev", thorough ? 1 : 0);
 	// deviation bound inside the linked chains (one member varies): C01 1 / 2, C07 1 / 1, others 0 / 1 (measured cost:
 	// C02 runs every history on every chain file)
 	{
@@ -1156,7 +1159,8 @@ int main(int argc, char** argv) {
 		if (c.has("carried_from")) {
 			auto va = find_ver(c["carried_from"].str());
 			if (!va) vf::fatal("replay: unknown version " + c["carried_from"].str());
-			c05_carried(c["type"].str(), *va, top);
+			g_wide = c["wide"].t == J::BOOL ? c["wide"].b : true;
+			c05_carried(c["type"].str(), *va, c.has("script") ? script_from_json(c["script"]) : Script(), top);
 			vf::finish(top);
 			return 0;
 		}
